@@ -217,7 +217,30 @@ struct Slot {
     tape: Option<Vec<u8>>,
     item: Option<String>,
     limit: u64,
+    /// kernel thread id of the worker (for its CPU clock)
+    tid: Option<u32>,
 }
+
+/// utime + stime of a thread (or of a whole process when `task` is None) in clock ticks (100 Hz).
+fn cpu_ticks(pid: &str, task: Option<u32>) -> Option<u64> {
+    let path = match task {
+        Some(t) => format!("/proc/{}/task/{}/stat", pid, t),
+        None => format!("/proc/{}/stat", pid),
+    };
+    let s = std::fs::read_to_string(path).ok()?;
+    let rest = s.rsplit_once(')')?.1;
+    let f: Vec<&str> = rest.split_whitespace().collect();
+    Some(f.get(11)?.parse::<u64>().ok()? + f.get(12)?.parse::<u64>().ok()?)
+}
+
+fn own_tid() -> Option<u32> {
+    let l = std::fs::read_link("/proc/thread-self").ok()?;
+    l.file_name()?.to_str()?.parse().ok()
+}
+
+/// How much longer than the CPU limit a case may take on the wall clock before it counts as
+/// blocked (a loaded machine slows a case down without it being wedged).
+const WALL_FACTOR: u64 = 15;
 
 static SLOTS: Mutex<Vec<Arc<Mutex<Slot>>>> = Mutex::new(Vec::new());
 
@@ -235,20 +258,40 @@ pub fn note_case(s: &str) {
 }
 
 fn new_slot(sub: &'static str, limit: u64) -> Arc<Mutex<Slot>> {
-    let s = Arc::new(Mutex::new(Slot { note: None, start: None, sub, tape: None, item: None, limit }));
+    let s = Arc::new(Mutex::new(Slot { note: None, start: None, sub, tape: None, item: None, limit, tid: own_tid() }));
     SLOTS.lock().unwrap().push(s.clone());
     CURRENT.with(|c| *c.borrow_mut() = Some(s.clone()));
     s
 }
 
 fn start_watchdog(root: String, property: &'static str, tier: String, seed: u64) {
-    std::thread::spawn(move || loop {
+    std::thread::spawn(move || {
+      // per slot: the case (identified by its start instant) and the thread's CPU ticks when first seen
+      let mut seen: Vec<Option<(Instant, u64)>> = Vec::new();
+      loop {
         std::thread::sleep(Duration::from_millis(300));
         let slots: Vec<Arc<Mutex<Slot>>> = SLOTS.lock().unwrap().clone();
-        for s in slots {
+        seen.resize(slots.len(), None);
+        for (si, s) in slots.into_iter().enumerate() {
             let g = s.lock().unwrap();
             if let Some(st) = g.start {
-                if st.elapsed() > Duration::from_secs(g.limit) {
+                // The limit is on CPU time consumed by the case (independent of machine load);
+                // the wall clock only catches a case that blocks without computing.
+                let now_ticks = g.tid.and_then(|t| cpu_ticks("self", Some(t)));
+                let first = match seen[si] {
+                    Some((i, c)) if i == st => c,
+                    _ => {
+                        let c = now_ticks.unwrap_or(0);
+                        seen[si] = Some((st, c));
+                        c
+                    }
+                };
+                let wall = st.elapsed();
+                let over = match now_ticks {
+                    Some(n) => n.saturating_sub(first) / 100 >= g.limit || wall > Duration::from_secs(g.limit * WALL_FACTOR),
+                    None => wall > Duration::from_secs(g.limit * 3),
+                };
+                if wall > Duration::from_secs(g.limit) && over {
                     // A case did not return. Save it and stop the process: the thread cannot be
                     // interrupted in-process.
                     let path = format!("{}/replays/{}_{}_wedge.json", root, property, g.sub);
@@ -264,7 +307,7 @@ fn start_watchdog(root: String, property: &'static str, tier: String, seed: u64)
                         o["case"] = json!(n);
                     }
                     let _ = std::fs::write(&path, serde_json::to_string_pretty(&o).unwrap());
-                    println!("WEDGE property={} check={} no return within {} s, case saved to {}", property, g.sub, g.limit, path);
+                    println!("WEDGE property={} check={} no return within {} s of CPU time ({:.0} s wall), case saved to {}", property, g.sub, g.limit, wall.as_secs_f64(), path);
                     // Confirm in a fresh process with a 30 s limit.
                     let confirmed = confirm_wedge(&path, property);
                     let ev = json!({
@@ -283,6 +326,7 @@ fn start_watchdog(root: String, property: &'static str, tier: String, seed: u64)
                 }
             }
         }
+      }
     });
 }
 
@@ -303,11 +347,17 @@ fn confirm_wedge(path: &str, property: &str) -> bool {
         Err(_) => return false,
     };
     let t0 = Instant::now();
+    let pid = child.id().to_string();
     loop {
         match child.try_wait() {
             Ok(Some(_)) => return false,
             Ok(None) => {
-                if t0.elapsed() > Duration::from_secs(30) {
+                let cpu = cpu_ticks(&pid, None).map(|t| t / 100);
+                let over = match cpu {
+                    Some(c) => c >= 30 || t0.elapsed() > Duration::from_secs(30 * WALL_FACTOR),
+                    None => t0.elapsed() > Duration::from_secs(90),
+                };
+                if over {
                     let _ = child.kill();
                     let _ = child.wait();
                     return true;
